@@ -609,7 +609,10 @@ func c11PanicSite() string {
 		f, more := fr.Next()
 		base := filepath.Base(f.File)
 		if strings.Contains(f.Function, "github.com/osrg/gobgp/") && !strings.HasPrefix(base, "zz_verif") && !strings.Contains(f.Function, "/internal/verif/") {
-			return fmt.Sprintf("%s:%d", base, f.Line)
+			// key by function (stable when unrelated lines of the file move); the line goes into the text
+			fn := f.Function[strings.LastIndex(f.Function, "/")+1:]
+			fn = fn[strings.Index(fn, ".")+1:]
+			return fmt.Sprintf("%s:%s|%s:%d", base, fn, base, f.Line)
 		}
 		if !more {
 			break
@@ -862,7 +865,8 @@ func c11Check(c *c11Ctx, cfg c11Cfg, items []c11Item, replay func() any, logs fu
 	logged := logs != nil && logs() > before
 	if site != "" {
 		c.Outcome("panic")
-		viol("panic@"+site, "CreateUpdateMsgFromPaths panicked at %s: %s (oversize routes in the call: %d)", site, what, len(oversize))
+		fn, line, _ := strings.Cut(site, "|")
+		viol("panic@"+fn, "CreateUpdateMsgFromPaths panicked at %s: %s (oversize routes in the call: %d)", line, what, len(oversize))
 		return
 	}
 
@@ -877,7 +881,8 @@ func c11Check(c *c11Ctx, cfg c11Cfg, items []c11Item, replay func() any, logs fu
 		b, err, site, what := c11Serialize(m, opt)
 		if site != "" {
 			c.Outcome("panic-serialize")
-			viol("panic@"+site, "BGPMessage.Serialize panicked at %s: %s", site, what)
+			fn, line, _ := strings.Cut(site, "|")
+			viol("panic@"+fn, "BGPMessage.Serialize panicked at %s: %s", line, what)
 			return
 		}
 		if err != nil {
